@@ -11,7 +11,7 @@
 (* Err, where an implementation is free to reject or to be lenient.       *)
 EXTENDS Integers, Sequences, FiniteSets, TLC
 
-MaxEnum == 64      \* lists longer than this are not expanded element by element (modelling bound)
+MaxEnum == 128     \* lists longer than this are not expanded element by element (modelling bound)
 
 NSeg(m)      == Len(m)
 SegLen(m, s) == Len(m[s+1])
